@@ -906,6 +906,11 @@ def _peer(ck: Checker, prog: Program):
         if isinstance(st, ast.Assign) and len(st.targets) == 1 and isinstance(st.targets[0], ast.Name) and isinstance(st.value, ast.Call) \
                 and call_name(st.value) in ("argmin", "argmax") and st.value.args:
             a0 = st.value.args[0]
+            if isinstance(a0, ast.Name):
+                # the magnitudes computed once under a name of their own
+                defs_ = [d for d in fam if isinstance(d, ast.Assign) and len(d.targets) == 1 and isinstance(d.targets[0], ast.Name) and d.targets[0].id == a0.id]
+                if len(defs_) == 1:
+                    a0 = defs_[0].value
             inner = a0.args[0] if isinstance(a0, ast.Call) and call_name(a0) in ("abs", "absolute", "fabs") and len(a0.args) == 1 else None
             sel[st.targets[0].id] = (call_name(st.value), unparse(inner) if inner is not None else None, st)
     picks = {}
